@@ -5,7 +5,9 @@ mod sx;
 mod c31;
 mod c32;
 mod alpha;
+mod c03;
 mod c06;
+mod rt;
 mod c08;
 mod gram;
 mod c11;
@@ -56,6 +58,7 @@ fn main() {
         "c32" => c32::run(&a),
         "c06" => c06::run_ff(&a),
         "c05" => c06::run_dec(&a),
+        "c03" => c03::run(&a),
         "c08" => c08::run(&a),
         "c11" => c11::run(&a),
         "c12" => c12::run(&a),
